@@ -103,8 +103,21 @@ def _check_programs(args) -> dict:
 					continue
 				raise
 			terminals |= terminal_names(fresh)
+			# through the store wrappers the cache uses (bytes written by save, read back by load) ...
+			import io
+			from rogw.tranp.implements.syntax.lark.parser import EntryStored
+			stream = io.BytesIO()
+			EntryStored(fresh).save(stream)
+			stream.seek(0)
+			restored = EntryStored.load(stream).entry
+			# ... and through the bare encoding: both must give the tree back
 			data = json.loads(json.dumps(Serialization.dumps(fresh.source), separators=(',', ':')))
-			restored = EntryOfLark(Serialization.loads(data))
+			bare = EntryOfLark(Serialization.loads(data))
+			bare_diffs: list[str] = []
+			compare_entries(fresh, bare, fresh.name, bare_diffs)
+			if bare_diffs:
+				failures.append({'clause': 'EntriesIdentical', 'detail': f'{label}: (encoding alone) {bare_diffs[0]} ({len(bare_diffs)} differences)', 'text': program, 'kind': bare_diffs[0].split(':')[1].strip().split(' ')[0]})
+				continue
 			diffs: list[str] = []
 			entries += compare_entries(fresh, restored, fresh.name, diffs)
 			if diffs:
@@ -189,6 +202,12 @@ def run(ctx: Ctx) -> int:
 		'def k(match: str, case: int) -> str:\n\treturn match\n',
 		'o = p.match(q).case\n',
 		"from typing import ParamSpec, TypeVar, TypeVarTuple\n\nT = TypeVar('T')\nP = ParamSpec('P')\nTs = TypeVarTuple('Ts')\n",
+		# tokens that span lines, in a file with LF and with CRLF line ends; line ends spelled as escapes inside a literal
+		'"""Summary\n\nmore\n"""\n\nx = 1\n',
+		'"""Summary\r\n\r\nmore\r\n"""\r\n\r\nx = 1\r\n',
+		'def f() -> str:\r\n\t"""doc\r\n\tmore"""\r\n\treturn \'a\\r\\n\'\r\n',
+		"s = \'\'\'with \\r\n\ton\'\'\'\n" if False else 's = """with \\r\n\ton"""\n',
+		"t = 'a\\r\\nb' + 'c\\n'\n",
 		'i = 0b101\n',
 		'j = 0o17\n',
 		'z = 2j\n',
